@@ -269,10 +269,16 @@ impl RuntimeMemoryImage {
 
     /// Checks whether the constant is a global memory address.
     pub fn is_global_memory_address(&self, constant: &Bitvector) -> bool {
-        if self.read(constant, constant.bytesize()).is_ok() {
-            return true;
+        // Note that checking whether a pointer-sized value can be read at the address would wrongly exclude
+        // the last bytes of each segment.
+        if let Ok(address) = constant.try_to_u64() {
+            self.memory_segments.iter().any(|segment| {
+                address >= segment.base_address
+                    && address - segment.base_address < segment.bytes.len() as u64
+            })
+        } else {
+            false
         }
-        false
     }
 
     /// Check whether all addresses in the given interval point to a readable segment in the runtime memory image.
